@@ -1,4 +1,133 @@
 import Reduino.Fw.Lcd
+import Reduino.Lemmas.Field
+import Reduino.Lemmas.C17
+/-
+  C17 — LCD text: same characters in the same cells on device and host, never off-row.
+  `Lcd.Fw.*` are the emitted helper templates acting on an HD44780 cell matrix, `Lcd.Host.*` the host class's buffer
+  operations.  Theorems hold for every geometry (all positive cols/rows — in particular 1..40 x 1..4), every text
+  (any length), every alignment and clear flag, in-range row and column.
+-/
 namespace Reduino.Props.C17
-theorem stub : True := trivial
+open Reduino Reduino.Lcd
+
+variable {K : Type} [Field K] [LinearOrder K] [IsStrictOrderedRing K] [FloorRing K]
+
+/-- a cell matrix / host buffer of the right shape -/
+def Shaped (g : Grid) (cols rows : Nat) : Prop := g.length = rows ∧ ∀ r ∈ g, r.length = cols
+
+/-- host object whose buffer mirrors the device cells -/
+def Mirrors (l : Host.LCD) (g : Grid) : Prop := l.buffer = g ∧ Shaped g l.cols l.rows ∧ 0 < l.cols ∧ 0 < l.rows
+
+/-- every print stays inside its row: `0 ≤ col` and `col + len ≤ cols` -/
+def InRow (cols : Nat) (p : Print) : Prop := 0 ≤ p.col ∧ p.col + Int.ofNat p.len ≤ Int.ofNat cols
+
+/-! ### write / line / message / clear: the device cells are exactly the host buffer -/
+
+theorem write_same_cells (l : Host.LCD) (g : Grid) (col row : Int) (text : List Char) (clear : Bool) (align : Align)
+    (hm : Mirrors l g) (hrow : 0 ≤ row ∧ row < Int.ofNat l.rows) (hcol : 0 ≤ col ∧ col < Int.ofNat l.cols) :
+    ∃ l' ps, Host.write l col row text clear align = .ok (l', ps) ∧
+      Mirrors l' (Fw.writeAligned g (Int.ofNat l.cols) col row text clear align).grid := by
+  sorry
+
+theorem line_same_cells (l : Host.LCD) (g : Grid) (row : Int) (text : List Char) (clear : Bool) (align : Align)
+    (hm : Mirrors l g) (hrow : 0 ≤ row ∧ row < Int.ofNat l.rows) :
+    ∃ l' ps, Host.line l row text align clear = .ok (l', ps) ∧
+      Mirrors l' (Fw.writeAligned g (Int.ofNat l.cols) 0 row text clear align).grid := by
+  sorry
+
+/-- message on a display with at least two rows (the firmware block writes rows 0 and 1) -/
+theorem message_same_cells (l : Host.LCD) (g : Grid) (top bottom : Option (List Char)) (ta ba : Align) (clear : Bool)
+    (hm : Mirrors l g) (hrows : 2 ≤ l.rows) :
+    ∃ l' ps, Host.message l top bottom ta ba clear = .ok (l', ps) ∧
+      Mirrors l' (
+        let g1 := match top with
+          | some t => (Fw.writeAligned g (Int.ofNat l.cols) 0 0 t clear ta).grid
+          | none => g
+        match bottom with
+          | some b => (Fw.writeAligned g1 (Int.ofNat l.cols) 0 1 b clear ba).grid
+          | none => g1) := by
+  sorry
+
+/-- on a one-row display the firmware still addresses row 1 (outside the matrix): known finding K17a -/
+theorem message_one_row_counterexample :
+    let o := Fw.writeAligned (blank 16 1) 16 0 1 ['b'] true Align.left
+    o.prints ≠ [] ∧ ∀ p ∈ o.prints, p.row = 1 := by
+  sorry
+
+theorem clear_same_cells (l : Host.LCD) (g : Grid) (hm : Mirrors l g) :
+    Mirrors (Host.clear l) (blank l.cols l.rows) := by
+  sorry
+
+/-- rows other than the addressed one are untouched, on both sides -/
+theorem other_rows_untouched (g : Grid) (cols col row : Int) (text : List Char) (clear : Bool) (align : Align)
+    (r : Nat) (hr : Int.ofNat r ≠ row) :
+    (Fw.writeAligned g cols col row text clear align).grid.getD r [] = g.getD r [] := by
+  sorry
+
+/-! ### never off-row -/
+
+theorem fw_never_off_row (g : Grid) (cols : Nat) (col row : Int) (text : List Char) (clear : Bool) (align : Align) :
+    ∀ p ∈ (Fw.writeAligned g (Int.ofNat cols) col row text clear align).prints, InRow cols p ∧ p.row = row := by
+  sorry
+
+theorem host_never_off_row (l : Host.LCD) (col row : Int) (text : List Char) (clear : Bool) (align : Align)
+    (l' : Host.LCD) (ps : List Print) (hcol : 0 ≤ col) (hs : Shaped l.buffer l.cols l.rows)
+    (h : Host.write l col row text clear align = .ok (l', ps)) :
+    (∀ p ∈ ps, InRow l.cols p ∧ p.row = row) ∧ Shaped l'.buffer l.cols l.rows := by
+  sorry
+
+theorem fw_progress_never_off_row (g : Grid) (cols : Nat) (row value maxValue width : Int) (fill : Char) (label : List Char) :
+    ∀ p ∈ (Fw.progress g (Int.ofNat cols) row value maxValue width fill label).prints, InRow cols p ∧ p.row = row := by
+  sorry
+
+/-! ### progress bar -/
+
+/-- firmware filled length: monotone in value, 0 at value ≤ 0, the bar width at value ≥ max -/
+theorem fw_progress_laws (cols v1 v2 mx w : Int) (hmx : 0 < mx) (hw : 1 ≤ w ∧ w ≤ cols) (h12 : v1 ≤ v2) :
+    (Fw.progressFilled cols v1 mx w).1 ≤ (Fw.progressFilled cols v2 mx w).1 ∧
+    (v1 ≤ 0 → (Fw.progressFilled cols v1 mx w).1 = 0) ∧
+    (mx ≤ v2 → (Fw.progressFilled cols v2 mx w).1 = w) ∧
+    (Fw.progressFilled cols v1 mx w).2 = w := by
+  sorry
+
+theorem host_progress_laws (cols : Nat) (v1 v2 mx w : Int) (hmx : 0 < mx) (hw : 1 ≤ w ∧ w ≤ Int.ofNat cols) (h12 : v1 ≤ v2) :
+    (Host.progressFilled (α := K) cols v1 mx (some w)).1 ≤ (Host.progressFilled (α := K) cols v2 mx (some w)).1 ∧
+    (v1 ≤ 0 → (Host.progressFilled (α := K) cols v1 mx (some w)).1 = 0) ∧
+    (mx ≤ v2 → (Host.progressFilled (α := K) cols v2 mx (some w)).1 = w) ∧
+    (Host.progressFilled (α := K) cols v1 mx (some w)).2 = w := by
+  sorry
+
+/-- both sides: identical whenever value·width is a multiple of max, never more than one cell apart -/
+theorem progress_close (cols : Nat) (v mx w : Int) (hmx : 0 < mx) (hw : 1 ≤ w ∧ w ≤ Int.ofNat cols) :
+    let fw := (Fw.progressFilled (Int.ofNat cols) v mx w).1
+    let host := (Host.progressFilled (α := K) cols v mx (some w)).1
+    (fw - host).natAbs ≤ 1 ∧ ((0 ≤ v ∧ v ≤ mx ∧ (v * w) % mx = 0) → fw = host) := by
+  sorry
+
+/-! ### backlight pin and glyph rows -/
+
+/-- host backlight state mirrored by the firmware shadow state -/
+def BlRel (b : Fw.Backlight) (l : Host.LCD) : Prop :=
+  b.on = l.backlightOn ∧ b.brightness = l.brightness ∧ 0 ≤ l.brightness ∧ l.brightness ≤ 255 ∧
+  b.pin = (if l.backlightOn then l.brightness else 0)
+
+theorem backlight_init : BlRel ({} : Fw.Backlight) (Host.LCD.create 16 2) := by
+  sorry
+
+/-- display/backlight/brightness keep the pin at 0 when off and at the last brightness when on -/
+theorem backlight_step (b : Fw.Backlight) (l : Host.LCD) (h : BlRel b l) :
+    (∀ on, BlRel (b.setOn on) (Host.backlight l on)) ∧ (∀ on, BlRel (b.setOn on) (Host.display l on)) ∧
+    (∀ lv l', Host.setBrightness l lv = .ok l' → BlRel (b.setLevel lv) l') := by
+  sorry
+
+/-- custom glyphs are uploaded with exactly the eight 5-bit rows the host stores -/
+theorem glyph_rows (slot : Int) (bitmap rows : List Int) (h : Host.glyph slot bitmap = .ok rows)
+    (h8 : bitmap.length = 8) :   -- the transpiler rejects any other length
+   
+    rows = Fw.glyphRows bitmap ∧ rows.length = 8 ∧ ∀ v ∈ rows, 0 ≤ v ∧ v < 32 := by
+  sorry
+
+example : Mirrors (Host.LCD.create 16 2) (blank 16 2) := by
+  sorry
+
 end Reduino.Props.C17
